@@ -125,6 +125,33 @@ def run(cx):
         late = [b for b in ext if not g.dominates(b, ie[-1].bb) and ie[-1].bb not in g.reachable(b)]
         cx.count(len(ext))
 
+    # ---- R16.scoped-scratch: a recursive validator does not wipe state it shares with its callers -------------
+    rec = []
+    for f in fb.fns.values():
+        if not in_validate_modules(f) or f.j["defkind"] != "Fn":
+            continue
+        if f.id in fb.reachable_fns(list(fb.callees(f).values())):
+            rec.append(f)
+    cx.floor("R16.scoped-scratch recursive validators", len(rec), 1)
+    for f in rec:
+        bad = None
+        for g in fb.with_closures(f):
+            for t in g.calls():
+                if term_calls(t, r"(HashSet|HashMap|BTreeSet|BTreeMap|Vec|VecDeque)::<.*>::(clear|truncate|drain|retain)$") and g is f:
+                    a = op_place(t.args[0])
+                    root = a.local if a is not None else None
+                    for _ in range(6):
+                        if root is None or 1 <= root <= f.argc:
+                            break
+                        ds = [d for d in local_defs(f, root) if hasattr(d, "rv") and d.rv in ("use", "ref", "copy_for_deref")]
+                        root = ds[0].reads()[0].local if len(ds) == 1 and ds[0].reads() else None
+                    if root is not None and 1 <= root <= f.argc:
+                        bad = t
+        cx.ob("R16.scoped-scratch", f.id + "|does-not-wipe-shared-collection", bad is None,
+              "a recursive validator clears a collection it received from its caller: entering a nested selection "
+              "set erases what the enclosing set had recorded (e.g. the names seen so far), so a duplicate after the "
+              "nested field is no longer reported", f.loc(bad.line if bad else None))
+
     # ---- R16.drops --------------------------------------------------------------------------------
     sites = drop_sites(fb)
     cx.floor("R16.drops discard idioms in validate modules", len(sites), 4)
